@@ -10,6 +10,7 @@ Output: lean/Poupool/Generated/Actors.lean  (+ a JSON side file with the same ta
 from __future__ import annotations
 
 import ast
+import re
 import inspect
 import itertools
 import json
@@ -34,6 +35,17 @@ PURE_HELPERS = {"__eco_mode", "__timer", "__total_duration", "__temperature", "_
 SMALL_RANGE = 8
 # ghost "last request" variables that are kept in the modelled state (the others are only emitted as effects)
 TRACKED_GHOSTS = {"Filtration": {"Disinfection", "Heating", "Swim"}, "Disinfection": {"PWMph", "PWMcl"}}
+# extra knowledge variables of a master about a slave: value 1 = "the slave is known not to be in phase <phase>"
+# (it was told one of `tells`, or answered is_<phase>() False / is_halt() True); forgotten (0) whenever the master's
+# handler ends in a phase in which the slave's own start guard `guard` can be true.
+KNOWLEDGE = {
+    "Filtration": [
+        {"var": "ks:Heating", "target": "Heating", "tells": {"wait", "halt"}, "ask_false": {"is_heating"}, "ask_true": {"is_halt"},
+         "guard": ("Heating", "filtration_allow_heating"), "init": 1},
+    ]
+}
+# ghost variables that are forgotten in the phases in which the slave's start guard can be true
+HAVOC_GHOSTS = {"Filtration": [("rq:Swim", ("Swim", "filtration_allow_swim"))]}
 
 
 class Names:
@@ -343,6 +355,8 @@ class Translator:
                 return node.args[0].value
         if isinstance(node, ast.Attribute) and isinstance(node.value, ast.Name) and node.value.id == "self" and node.attr == "__heater":
             return "heater"
+        if isinstance(node, ast.Attribute) and isinstance(node.value, ast.Name) and node.value.id == "self" and node.attr == "__pump":
+            return "pump"
         return None
 
     def is_pure_expr(self, node, env):
@@ -432,13 +446,21 @@ class Translator:
                             if k.arg == "timeout":
                                 timeout = ast.literal_eval(k.value) if isinstance(k.value, ast.Constant) else "?"
                         self.asks.append((self.ctrl, self.handler, a, inner.func.attr, timeout))
-                        if inner.func.attr == "is_halt" and a != self.ctrl and a in TRACKED_GHOSTS.get(self.ctrl, ()):
-                            return f"(.askHalt {self.var('rq:' + a)})" if self.view == "safety" else ".nondet"
-                        return ".nondet"
+                        return self.ask_cond(a, inner.func.attr)
             # own method used as a condition: must be pure w.r.t. the modelled state
             if isinstance(f, ast.Attribute) and isinstance(f.value, ast.Name) and f.value.id == "self":
                 cname = env.get("__class__", self.ctrl)
                 callee = self.classes[cname].methods.get(f.attr)
+                if callee is not None and len(node.args) == 2:
+                    to = self.ask_or_default(cname, f.attr)
+                    q, d = node.args
+                    if to is not None and isinstance(q, ast.Call) and isinstance(q.func, ast.Attribute) and isinstance(d, ast.Constant) and isinstance(d.value, bool):
+                        a = self.actor_of(q.func.value, env)
+                        if a is not None:
+                            self.asks.append((self.ctrl, self.handler, a, q.func.attr, to))
+                            inner = self.ask_cond(a, q.func.attr)
+                            # a timeout yields the default without any knowledge, an answer yields the answer
+                            return f"(.or .nondet {inner})" if d.value else f"(.and .nondet {inner})"
                 if callee is not None:
                     self.scan_asks(callee, env, f.attr)
                     if self.fn_is_pure(cname, f.attr):
@@ -453,6 +475,50 @@ class Translator:
             if e != ".unknown":
                 return f"(.cmp .ne {e} (.const 0))"
         return ".nondet"
+
+    def ask_cond(self, a, method):
+        """Cond for `a.method().get()` with the knowledge refinements of each answer"""
+        if self.view != "safety" or a == self.ctrl:
+            return ".nondet"
+        on_true, on_false = [], []
+        if method == "is_halt" and a in TRACKED_GHOSTS.get(self.ctrl, ()):
+            on_true.append((self.var("rq:" + a), 0))
+        for k in KNOWLEDGE.get(self.ctrl, []):
+            if k["target"] == a:
+                if method in k["ask_true"]:
+                    on_true.append((self.var(k["var"]), 1))
+                if method in k["ask_false"]:
+                    on_false.append((self.var(k["var"]), 1))
+        if not on_true and not on_false:
+            return ".nondet"
+        f = lambda l: L_list([f"({v}, {L_int(x)})" for v, x in l])  # noqa: E731
+        return f"(.ask {f(on_true)} {f(on_false)})"
+
+    def ask_or_default(self, cname, mname):
+        """is `mname` the wrapper  try: return future.get(timeout=T)  except pykka.Timeout: return default ?"""
+        fn = self.classes[cname].methods.get(mname)
+        if fn is None or len(fn.args.args) != 3:
+            return None
+        body = [st for st in fn.body if not (isinstance(st, ast.Expr) and isinstance(st.value, ast.Constant))]
+        if len(body) != 1 or not isinstance(body[0], ast.Try):
+            return None
+        t = body[0]
+        fut, dflt = fn.args.args[1].arg, fn.args.args[2].arg
+        if len(t.body) != 1 or not isinstance(t.body[0], ast.Return) or len(t.handlers) != 1:
+            return None
+        r = t.body[0].value
+        if not (isinstance(r, ast.Call) and isinstance(r.func, ast.Attribute) and r.func.attr == "get" and isinstance(r.func.value, ast.Name) and r.func.value.id == fut):
+            return None
+        timeout = None
+        for k in r.keywords:
+            if k.arg == "timeout" and isinstance(k.value, ast.Constant):
+                timeout = k.value.value
+        h = t.handlers[0]
+        if ast.unparse(h.type) != "pykka.Timeout" or len(h.body) != 1 or not isinstance(h.body[0], ast.Return):
+            return None
+        if not (isinstance(h.body[0].value, ast.Name) and h.body[0].value.id == dflt):
+            return None
+        return timeout
 
     def fn_is_pure(self, cname, mname, seen=None):
         seen = seen or set()
@@ -622,8 +688,9 @@ class Translator:
         if a == self.ctrl:
             return f"(.selfTell {self.msg(m)})" if self.view == "timer" else S.skip
         trig = self.ctx["triggers"].get(a)
+        extra = [self.mk_set(self.var(k["var"]), "(.const 1)") for k in KNOWLEDGE.get(self.ctrl, []) if k["target"] == a and m in k["tells"]]
         if trig is not None and m in trig and a in TRACKED_GHOSTS.get(self.ctrl, ()):
-            return self.mk_set(self.var("rq:" + a), f"(.const {self.name_id(m)})")
+            return S.seq([self.mk_set(self.var("rq:" + a), f"(.const {self.name_id(m)})")] + extra)
         return f"(.emit {self.name_id('tell:' + a + '.' + m)})"
 
     def inline(self, cname, mname, call, env, depth):
@@ -807,6 +874,25 @@ def small_settings(classes):
     return out
 
 
+def guard_states(classes, slave, guard, seen=None):
+    """state names of the master that the slave's guard method asks for (is_<state>), following own-method calls"""
+    seen = seen or set()
+    if (slave, guard) in seen:
+        return set()
+    seen.add((slave, guard))
+    fn = classes[slave].methods.get(guard)
+    out = set()
+    if fn is None:
+        return out
+    for n in ast.walk(fn):
+        if isinstance(n, ast.Call) and isinstance(n.func, ast.Attribute):
+            if n.func.attr.startswith("is_") and not (isinstance(n.func.value, ast.Name) and n.func.value.id == "self"):
+                out.add(n.func.attr[3:])
+            if isinstance(n.func.value, ast.Name) and n.func.value.id == "self" and n.func.attr in classes[slave].methods:
+                out |= guard_states(classes, slave, n.func.attr, seen)
+    return out
+
+
 def class_consts():
     import controller.filtration as f
     import controller.swim as s
@@ -916,11 +1002,28 @@ def generate(repo=None):
             out[c]["timer_cb_prog"] = cb_prog
             out[c]["timer_methods"] = progs
             out[c]["opaque"] = out[c]["opaque"] + [o for o in tr.opaque if o not in out[c]["opaque"]]
+    # PWM: an actor without state machine (one pseudo leaf), two instances of the same class
+    ctx["leaves"]["PWM"] = ["loop"]
+    ctx["states"]["PWM"] = set()
+    ctx["msgs"]["PWM"] = Names()
+    probes["PWM"] = {"rows": [], "total": [], "triggers": [], "guards": {}, "cbs": [], "init": "loop"}
+    for view in ("safety", "timer"):
+        tr = Translator("PWM", classes, ctx, view)
+        progs = [(m, tr.handler_stmt(m)) for m in ("do_run", "do_cancel")]
+        for m, _ in progs:
+            tr.msg(m)
+        if view == "safety":
+            out["PWM"] = {"probe": probes["PWM"], "cb_ids": {}, "cb_prog": [], "methods": progs, "opaque": tr.opaque}
+        else:
+            out["PWM"]["timer_cb_prog"] = []
+            out["PWM"]["timer_methods"] = progs
+    out["PWM"]["plain"] = ["do_cancel", "do_run"]
+    out["PWM"]["delayed"] = ["do_run"]
     # alphabets: a method can arrive as a PLAIN message only if somebody sends it that way (dispatcher, another actor's
     # tell/ask, an unguarded self-tell, main()); it can arrive DELAYED only if some do_delay/do_repeat names it.
     disp = dispatcher_methods()
     for c in CONTROLLERS:
-        plain = set(probes[c]["triggers"]) | set(disp.get(c, ()))
+        plain = set(disp.get(c, ()))
         for (snd, h, rcv, m, kind) in ctx["tells"]:
             if rcv == c:
                 plain.add(m)
@@ -934,6 +1037,20 @@ def generate(repo=None):
             delayed.add(m.replace("on_enter_", "do_repeat_"))
         out[c]["plain"] = sorted(plain)
         out[c]["delayed"] = sorted(delayed)
+    for c in CONTROLLERS:
+        hv = []
+        leaves = ctx["leaves"][c]
+        vars_ = ctx["vars"][c]
+        for (vname, (slave, guard)) in HAVOC_GHOSTS.get(c, []):
+            sts = guard_states(classes, slave, guard)
+            ls = [i for i, l in enumerate(leaves) if l in sts]
+            hv.append((vars_.id(vname), ls, ctx["names"].id("<none>"), sorted(sts)))
+        for k in KNOWLEDGE.get(c, []):
+            sts = guard_states(classes, *k["guard"])
+            ls = [i for i, l in enumerate(leaves) if l in sts]
+            hv.append((vars_.id(k["var"]), ls, 0, sorted(sts)))
+        out[c]["havoc"] = hv
+        out[c]["var_init"] = {k["var"]: k["init"] for k in KNOWLEDGE.get(c, [])}
     for k in ("tells", "asks"):
         seen, ded = set(), []
         for t in ctx[k]:
@@ -971,6 +1088,18 @@ def dispatcher_methods():
     return out
 
 
+def common_literals(when):
+    """guard literals that hold in every valuation of `when`"""
+    if not when:
+        return []
+    out = []
+    for g in sorted(when[0]):
+        vals = {w[g] for w in when}
+        if len(vals) == 1:
+            out.append((g, vals.pop()))
+    return out
+
+
 def lean_str(s):
     return '"' + s.replace("\\", "\\\\").replace('"', '\\"') + '"'
 
@@ -978,6 +1107,12 @@ def lean_str(s):
 def emit(ctx, out, path):
     lines = ["-- GENERATED by translate/actors.py from the repository's working tree. Do not edit.", "import Poupool.Model.Actor", "namespace Poupool.Gen", "open Poupool", ""]
     lines.append(f"def names : List String := {L_list([lean_str(s) for s in ctx['names'].list])}")
+    lines.append("namespace N")
+    for i, n in enumerate(ctx["names"].list):
+        if re.fullmatch(r"[A-Za-z_][A-Za-z0-9_]*", n):
+            lines.append(f"abbrev {n}_ : Int := {i}")
+    lines.append("abbrev none_ : Int := 1\nabbrev closing_star : Int := %d\nabbrev opening_star : Int := %d" % (ctx["names"].id("closing_*"), ctx["names"].id("opening_*")))
+    lines.append("end N")
     side = {"names": ctx["names"].list, "actors": {}, "tells": ctx["tells"], "asks": ctx["asks"], "delays": ctx["delays"], "published": {k: sorted(v) for k, v in ctx["published"].items()}, "settings": ctx["settings"]}
     for c, o in out.items():
         p = o["probe"]
@@ -985,7 +1120,7 @@ def emit(ctx, out, path):
         lid = {l: i for i, l in enumerate(leaves)}
         msgs = ctx["msgs"][c]
         vars_ = ctx["vars"][c]
-        lc = c[0].lower() + c[1:]
+        lc = c.lower() if c.isupper() else c[0].lower() + c[1:]
         lines.append(f"\n/-! ## {c} -/")
         lines.append(f"def {lc}Leaves : List String := {L_list([lean_str(s) for s in leaves])}")
         lines.append(f"def {lc}Msgs : List String := {L_list([lean_str(s) for s in msgs.list])}")
@@ -996,17 +1131,31 @@ def emit(ctx, out, path):
                 lines.append(f"/-- {c}.{n} ({view.lower()} view) -/\ndef {lc}{view}_cb_{o['cb_ids'][n]} : Stmt := {prog}")
             for m, prog in mp:
                 lines.append(f"/-- {c}.{m} ({view.lower()} view) -/\ndef {lc}{view}_m_{msgs.id(m)} : Stmt := {prog}")
+        gnames = sorted({g for gs in p["guards"].values() for g in gs})
+        gid = {g: i for i, g in enumerate(gnames)}
+        lines.append(f"def {lc}Guards : List String := {L_list([lean_str(g) for g in gnames])}")
         by_leaf = [[] for _ in leaves]
         for r in p["rows"]:
             by_leaf[lid[r["src"]]].append(
-                "{ src := %d, trig := %d, dest := %d, internal := %s, pre := %s, post := %s }"
-                % (lid[r["src"]], msgs.id(r["trig"]), lid[r["dest"]], "true" if r["internal"] else "false",
-                   L_list([str(o["cb_ids"][n]) for n in r["pre"]]), L_list([str(o["cb_ids"][n]) for n in r["post"]]))
+                ("{ src := %d, trig := %d, dest := %d, internal := %s, pre := %s, post := %s"
+                 % (lid[r["src"]], msgs.id(r["trig"]), lid[r["dest"]], "true" if r["internal"] else "false",
+                    L_list([str(o["cb_ids"][n]) for n in r["pre"]]), L_list([str(o["cb_ids"][n]) for n in r["post"]])))
+                + ", req := %s }" % L_list(["(%d, %s)" % (gid[g], "true" if v else "false") for g, v in common_literals(r["when"])])
             )
         lines.append(f"def {lc}Rows : List (List Row) := [\n  " + ",\n  ".join("[" + ",\n   ".join(rs) + "]" for rs in by_leaf) + "]")
         init_vars = []
         for v in vars_.list:
-            init_vars.append(L_int(ctx["names"].id("<none>")) if v == "pub" else "0")
+            if v == "pub":
+                init_vars.append(L_int(ctx["names"].id("<none>")))
+            else:
+                init_vars.append(L_int(o.get("var_init", {}).get(v, 0)))
+        hv_s = L_list(["(%d, %s, %s)" % (v, L_list([str(x) for x in ls]), L_int(x0)) for (v, ls, x0, _) in o.get("havoc", [])])
+        po = []
+        for m in msgs.list:
+            if m.startswith("do_repeat_"):
+                ph = m[len("do_repeat_"):]
+                po.append("(%d, %s)" % (msgs.id(m), L_list([str(i) for i, l in enumerate(leaves) if l == ph or l.startswith(ph + "_")])))
+        po_s = L_list(po)
         for view in ("Safety", "Timer"):
             nv = len(vars_.list) if view == "Safety" else 0
             iv = init_vars if view == "Safety" else []
@@ -1019,10 +1168,27 @@ def emit(ctx, out, path):
                 f"  methods := {L_list(['(%d, %s%s_m_%d)' % (msgs.id(m), lc, view, msgs.id(m)) for m, _ in mp])},\n"
                 f"  triggers := {L_list([str(msgs.id(t)) for t in p['triggers']])},\n"
                 f"  plainMsgs := {L_list([str(msgs.id(t)) for t in o['plain']])},\n"
-                f"  delayedMsgs := {L_list([str(msgs.id(t)) for t in o['delayed']])} }}"
+                f"  delayedMsgs := {L_list([str(msgs.id(t)) for t in o['delayed']])},\n"
+                f"  pollOwner := {po_s},\n"
+                f"  havoc := {hv_s if view == 'Safety' else '[]'} }}"
             )
+        # named indices (a renamed/removed state, message or device makes the property files fail to build)
+        def ident(x):
+            return re.sub(r"[^A-Za-z0-9_]", "_", x)
+        lines.append(f"namespace {c}")
+        for i, l in enumerate(leaves):
+            lines.append(f"abbrev leaf_{ident(l)} : Nat := {i}")
+        for i, m in enumerate(msgs.list):
+            lines.append(f"abbrev m_{ident(m)} : Nat := {i}")
+        for i, v in enumerate(vars_.list):
+            lines.append(f"abbrev v_{ident(v)} : Nat := {i}")
+        for i, g in enumerate(gnames):
+            lines.append(f"abbrev g_{ident(g)} : Nat := {i}")
+        for n, i in o["cb_ids"].items():
+            lines.append(f"abbrev cb_{ident(n)} : Nat := {i}")
+        lines.append(f"end {c}")
         side["actors"][c] = {"leaves": leaves, "msgs": msgs.list, "vars": vars_.list, "rows": p["rows"], "total": p["total"], "triggers": p["triggers"],
-                             "guards": p["guards"], "callbacks": [n for n, _ in o["cb_prog"]], "methods": [m for m, _ in o["methods"]], "opaque": o["opaque"], "init": p["init"], "plain": o["plain"], "delayed": o["delayed"]}
+                             "guards": p["guards"], "callbacks": [n for n, _ in o["cb_prog"]], "methods": [m for m, _ in o["methods"]], "opaque": o["opaque"], "init": p["init"], "plain": o["plain"], "delayed": o["delayed"], "havoc": o.get("havoc", [])}
     lines.append("\nend Poupool.Gen\n")
     text = "\n".join(lines)
     os.makedirs(os.path.dirname(path), exist_ok=True)
